@@ -205,7 +205,7 @@ def run_check(prop: str, tier: str, seed: int, replay: Optional[dict], *, profil
             prof = profile
             if profile == "c01+quant":
                 prof = "quant" if i % 4 == 3 else "c01"
-            cases.append(eqlgen.gen_case(rng.fork(i), prof))
+            cases.append(eqlgen.gen_case(rng.fork(i), prof, extras=True))
             origin.append(f"gen:{i}")
 
     impl = run_impl_many(cases)
